@@ -49,15 +49,29 @@ structure LoopCode where
   distInit : Bool
   /-- the loop variable is bound before the loop -/
   iterInit : Bool
+  /-- what the handler restores the iterate from is a COPY taken before the `try` (or the body never writes the iterate in
+  place, so that an alias is as good as a copy) -/
+  saveIsCopy : Bool
   deriving DecidableEq, Repr
+
+/-- in a body, the distance is evaluated AFTER the last write of the iterate (so it is the cost of the iterate the pass
+ends with), and the iterate is written at all -/
+def bodyOk (body : List Stmt) : Bool :=
+  let effs := body.map (·.effect)
+  effs.contains .writeSol && effs.contains .writeDist &&
+    !((effs.reverse.takeWhile (· != .writeDist)).contains .writeSol)
 
 /-- the shape the positive theorems need -/
 def LoopCode.sound (c : LoopCode) : Bool :=
-  c.restoreSol && c.restoreDist && c.flagOnBreak && c.distInit && c.iterInit
+  c.restoreSol && c.restoreDist && c.flagOnBreak && c.distInit && c.iterInit && c.saveIsCopy &&
+    !c.bodies.isEmpty && c.bodies.all bodyOk
+
+/-- body number `branch` (out-of-range numbers mean the first body) -/
+def LoopCode.body (c : LoopCode) (branch : Nat) : List Stmt := c.bodies.getD branch (c.bodies.headD [])
 
 /-- what one pass through the loop body does -/
 inductive Event
-  | ok (criteriaMet : Bool)     -- body completes; the numeric stopping criteria evaluate to `criteriaMet`
+  | ok (branch : Nat) (criteriaMet : Bool)  -- body `branch` completes; the stopping criteria evaluate to `criteriaMet`
   | fail (branch pos : Nat)     -- exception raised by statement number `pos` of body `branch`
   | nan                         -- Bregman only: distance of the new iterate is NaN → early `return`
   deriving DecidableEq, Repr
@@ -85,20 +99,25 @@ def init (c : LoopCode) : LoopState :=
 
 /-- effects of the statements executed before statement `pos` of body `branch` -/
 def executed (c : LoopCode) (branch pos : Nat) : List Effect :=
-  ((c.bodies.getD branch []).take pos).map (·.effect)
+  ((c.body branch).take pos).map (·.effect)
 
 /-- one pass of the loop body at loop index `i` -/
 def step (c : LoopCode) (s : LoopState) (i : Nat) (e : Event) : LoopState :=
   let s := { s with iter := some i }
   match e with
-  | .ok met =>
-    let s := { s with distTag := some (i + 1), solTag := i + 1 }
+  | .ok b met =>
+    -- effects of the whole body, in source order: the iterate becomes iterate `i+1` once it is written; the distance is
+    -- the cost of the iterate the pass ends with only if it is evaluated after the last write
+    let effs := (c.body b).map (·.effect)
+    let sol := if effs.contains .writeSol then i + 1 else s.solTag
+    let fresh := effs.contains .writeDist && !((effs.reverse.takeWhile (· != .writeDist)).contains .writeSol)
+    let s := { s with solTag := sol, distTag := if fresh then some sol else s.distTag }
     if 1 < i ∧ met then { s with flag := true, stopped := true } else s
   | .nan => { s with distTag := some (i + 1), solTag := i + 1, stopped := true }
   | .fail b a =>
     let pre := executed c b a
     -- the iterate / the distance were already overwritten and the handler does not restore them
-    let s := if pre.contains .writeSol ∧ c.restoreSol = false then { s with solTag := i + 1 } else s
+    let s := if pre.contains .writeSol ∧ (c.restoreSol && c.saveIsCopy) = false then { s with solTag := i + 1 } else s
     let s := if pre.contains .writeDist ∧ c.restoreDist = false then { s with distTag := some (i + 1) } else s
     { s with stopped := true }
 
@@ -125,17 +144,18 @@ def converged (c : LoopCode) (numIter : Nat) (env : Nat → Event) (s : LoopStat
   | some i => .ok (decide ((i : Int) < (numIter : Int) - 1))
 
 /-- the environment given by a finite list (missing entries: body completes, criteria not met) -/
-def envOf (es : List Event) (i : Nat) : Event := es.getD i (.ok false)
+def envOf (es : List Event) (i : Nat) : Event := es.getD i (.ok 0 false)
 
 /-- first statement with a given label in a body (`body.length` when absent) -/
 def labelIndex (c : LoopCode) (branch : Nat) (l : Label) : Nat :=
-  ((c.bodies.getD branch []).map (·.label)).idxOf l
+  ((c.body branch).map (·.label)).idxOf l
 
 /-- the two methods as they were found (before the `fix:` commit), for the negative witnesses -/
 def asFoundNewton : LoopCode :=
   { bodies := [[⟨.assemble, .none⟩, ⟨.linearSolve, .none⟩, ⟨.setSolution, .writeSol⟩, ⟨.anderson, .writeSol⟩,
                 ⟨.distance, .writeDist⟩, ⟨.history, .none⟩, ⟨.timings, .none⟩, ⟨.criteria, .criteria⟩]],
-    restoreSol := false, restoreDist := false, flagOnBreak := false, distInit := false, iterInit := false }
+    restoreSol := false, restoreDist := false, flagOnBreak := false, distInit := false, iterInit := false,
+    saveIsCopy := false }
 
 def asFoundBregman : LoopCode :=
   { bodies := [[⟨.regularisation, .none⟩, ⟨.linearSolve, .writeSol⟩, ⟨.shrink, .none⟩, ⟨.anderson, .none⟩,
@@ -144,10 +164,12 @@ def asFoundBregman : LoopCode :=
                [⟨.linearSolve, .writeSol⟩, ⟨.shrink, .none⟩, ⟨.anderson, .none⟩,
                 ⟨.distance, .writeDist⟩, ⟨.nanCheck, .none⟩, ⟨.history, .none⟩, ⟨.timings, .none⟩,
                 ⟨.criteria, .criteria⟩, ⟨.commit, .none⟩]],
-    restoreSol := false, restoreDist := false, flagOnBreak := false, distInit := false, iterInit := true }
+    restoreSol := false, restoreDist := false, flagOnBreak := false, distInit := false, iterInit := true,
+    saveIsCopy := false }
 
 /-- the Newton body with the repaired handler / flag / initialisations (for non-vacuity examples) -/
 def repairedNewton : LoopCode :=
-  { asFoundNewton with restoreSol := true, restoreDist := true, flagOnBreak := true, distInit := true, iterInit := true }
+  { bodies := asFoundNewton.bodies, restoreSol := true, restoreDist := true, flagOnBreak := true, distInit := true,
+    iterInit := true, saveIsCopy := true }
 
 end Darsia.SolveLoop
